@@ -3,7 +3,7 @@
     lengths), the distance matrix as the CODE computes it ([dist_matrix], the
     transcription of [_get_distances]) and as the SPECIFICATION defines it
     ([pathlen_matrix]), and the tip names.  No proofs here. *)
-From CG3 Require Import Lib.PyZ Lib.Val Lib.Rose Model.Tree Model.TreeMid Model.TreeJson Model.TreeDist Model.TreeNames Spec.TreeSpec Spec.TreeTopoSpec.
+From CG3 Require Import Lib.PyZ Lib.Val Lib.Rose Model.Tree Model.TreeMid Model.TreeJson Model.TreeDist Model.TreeNames Model.TreeRemove Spec.TreeSpec Spec.TreeTopoSpec.
 
 Inductive op : Type :=
 | ORootedAt (nm : name)
@@ -22,7 +22,8 @@ Inductive op : Type :=
 | OMidpoint (fx : bool)
 | OBifurcating
 | OTreeDistRF (other : tree)
-| OTreeDistSelf.
+| OTreeDistSelf
+| ORemoveDeleted (names : list name).
 
 Fixpoint vtree (t : tree) : val :=
   match t with
@@ -87,6 +88,7 @@ Definition step (t : tree) (o : op) : res tree :=
   | OBifurcating => Ok (bifurcating t)
   | OTreeDistRF _ => Ok t
   | OTreeDistSelf => Ok t
+  | ORemoveDeleted D => Ok (remove_deleted D t)
   end.
 
 Definition obs_resZ (r : res Z) : val := match r with Ok z => VZ z | Err e => VE e end.
